@@ -1,6 +1,7 @@
 package rules
 
 import (
+	"go/types"
 	"sort"
 	"strings"
 
@@ -26,6 +27,7 @@ func checkC04(r *Report, p *Program) {
 	rmwClosuresReadLive(r, p, "R04.5")
 	adoptAlwaysWrites(r, p, "R04.6")
 	listersListEverything(r, p, "R04.7")
+	claimKeepTable(r, p, "R04.8")
 }
 
 // listersListEverything: the controllers list their caches unfiltered and leave the
@@ -836,4 +838,100 @@ func generatedSelectorOn(pa engine.Path) int {
 		}
 	}
 	return res
+}
+
+// claimKeepTable: the two claim loops (children, ControllerRevisions) keep an object ⇔ ClaimObject
+// answered (true, nil) for that very object, and record the error ⇔ it is non-nil.
+func claimKeepTable(r *Report, p *Program, rule string) {
+	r.Rule(rule, "ClaimChildren / ClaimControllerRevisions, per object: kept in the result ⇔ ClaimObject(obj) returned ok ∧ no error; the error is recorded ⇔ it is non-nil; the object kept is the one that was claimed")
+	r.Floor(rule, 2)
+	for _, key := range []string{"dynamic/controllerref.UnstructuredManager.ClaimChildren", "dynamic/controllerref.ControllerRevisionManager.ClaimControllerRevisions"} {
+		f := fn(r, p, rule, key)
+		if f == nil {
+			continue
+		}
+		loops := engine.RangeLoops(f)
+		if len(loops) != 1 {
+			r.Check(rule, FK(f), p.Pos(f.Pos()), false, "", "expected one loop over the candidates")
+			continue
+		}
+		l := loops[0]
+		isErrAppend := func(in ssa.Instruction) bool {
+			c, isC := in.(*ssa.Call)
+			if !isC || !isCallTo(in, "builtin.append") {
+				return false
+			}
+			sl, isSl := c.Type().Underlying().(*types.Slice)
+			return isSl && isErrorT(sl.Elem())
+		}
+		paths, err := engine.EnumPaths(f, engine.EnumOpts{Start: l.Body, Leave: func(b *ssa.BasicBlock) bool { return b == l.Header || b == l.Exit },
+			Effect: func(in ssa.Instruction) bool { return isCallTo(in, "builtin.append") }})
+		ok, why := err == nil, ""
+		if err != nil {
+			why = err.Error()
+		}
+		var claim *ssa.Call
+		for _, cs := range callsTo(f, false, ".ClaimObject") {
+			if c, isC := cs.Instr.(*ssa.Call); isC && l.Contains(c) {
+				claim = c
+			}
+		}
+		if claim == nil {
+			r.Check(rule, FK(f), p.Pos(f.Pos()), false, "", "no ClaimObject call in the loop")
+			continue
+		}
+		if !engine.SameValue(unwrapIface(claim.Common().Args[len(claim.Common().Args)-4]), l.Val) && !strings.Contains(E(claim.Common().Args[len(claim.Common().Args)-4]), E(l.Val)) {
+			ok, why = false, "ClaimObject is asked about "+E(claim.Common().Args[len(claim.Common().Args)-4])+", not the loop's object"
+		}
+		ev, okv := engine.ErrValue(claim), engine.ResultValue(claim, 0)
+		for _, pa := range paths {
+			failed := 0
+			for _, lt := range pa.Lits {
+				if x, isNil, isT := lt.NilTest(); isT && ev != nil && engine.SameValue(x, ev) {
+					failed = 1
+					if isNil {
+						failed = -1
+					}
+				}
+			}
+			okLit := 0
+			for _, lt := range pa.Lits {
+				if lt.Cond != nil && okv != nil && engine.SameValue(lt.Cond, okv) {
+					okLit = -1
+					if lt.Pos {
+						okLit = 1
+					}
+				}
+			}
+			nErr, nKeep := 0, 0
+			for _, e := range pa.Effects {
+				if isErrAppend(e) {
+					nErr++
+					if a := e.(*ssa.Call).Common().Args[1]; ev != nil && !engine.DependsOnValue(a, ev, nil) {
+						ok, why = false, "the error recorded is not ClaimObject's"
+					}
+				} else {
+					nKeep++
+					if a := e.(*ssa.Call).Common().Args[1]; !engine.DependsOnValue(a, l.Val, nil) {
+						ok, why = false, "the object kept is not the one that was claimed"
+					}
+				}
+			}
+			wantErr, wantKeep := 0, 0
+			if failed == 1 {
+				wantErr = 1
+			}
+			if failed == -1 && okLit == 1 {
+				wantKeep = 1
+			}
+			if failed == 0 {
+				ok, why = false, "an iteration does not look at ClaimObject's error"
+			} else if failed == 1 && okLit == 1 && nErr == 1 && nKeep == 1 {
+				// (true, err) is not an answer ClaimObject gives (its table, R04.1): keeping behind 'ok' after a recorded error changes nothing
+			} else if nErr != wantErr || nKeep != wantKeep {
+				ok, why = false, sf("with claim-failed=%d ok=%d the iteration records %d error(s) (want %d) and keeps %d object(s) (want %d)", failed, okLit, nErr, wantErr, nKeep, wantKeep)
+			}
+		}
+		r.Check(rule, FK(f), p.Pos(f.Pos()), ok, "kept ⇔ (true, nil)", why)
+	}
 }
